@@ -549,8 +549,36 @@ def gen_C15(rng, n): return gen_group_ops(rng, n, 'C15')
 def gen_C10(rng, n): return gen_group_ops(rng, n, 'C10')
 
 
+def twist_point_axis_y(rng, imaginary):
+    """a point of the twist whose y is purely imaginary (Re y = 0: the parity rule of the compressed format cannot tell y from -y)
+    or purely real: x = a + b*u with Im(x^3 + 5u) = 3a^2 b - 2b^3 + 5 = 0, and the real number x^3 + 5u a non-residue (resp. a
+    residue) of Fq.  Such points are ordinary twist points, outside the order-r subgroup (up to an unsearchable accident)."""
+    while True:
+        b = rng.randrange(1, q)
+        a = K1.sqrt((2 * b * b * b - 5) * pow(3 * b, -1, q) % q)
+        if a is None:
+            continue
+        if rng.random() < 0.5:
+            a = (-a) % q
+        x = (a, b)
+        y2 = K2.add(K2.mul(K2.mul(x, x), x), K2.b)
+        assert y2[1] == 0
+        y = K2.sqrt(y2)
+        if y is None:
+            continue
+        if (y[0] == 0) == imaginary and not K2.is_zero(y):
+            if rng.random() < 0.5:
+                y = K2.neg(y)
+            assert on_curve(K2, (x, y))
+            return (x, y)
+
+
 def outside_subgroup_point(rng):
     c = rng.random()
+    if c < 0.12:
+        im = rng.random() < 0.7
+        return ('twist-point-imaginary-y' if im else 'twist-point-real-y'), twist_point_axis_y(rng, im)
+    c = (c - 0.12) / 0.88
     if c < 0.25:
         o = rng.choice([13, 1621, 13 * 1621])
         return f'order-{o}', small_order_twist_point(o, rng)
